@@ -83,10 +83,15 @@ def worker(pid, tier, seed, shard, nshards, out, only=None):
 
 # ------------------------------------------------------------------------------------- ledger
 def load_ledger():
-    p = os.path.join(VERIF, 'known_findings.json')
-    if not os.path.exists(p):
-        return {'known': [], 'fixed': []}
-    return json.load(open(p))
+    import glob
+    led = {'known': [], 'fixed': []}
+    # known_findings.json is the ledger; findings/*.json are per-property parts of the same committed ledger
+    for p in [os.path.join(VERIF, 'known_findings.json')] + sorted(glob.glob(os.path.join(VERIF, 'findings', '*.json'))):
+        if os.path.exists(p):
+            d = json.load(open(p))
+            led['known'] += d.get('known', [])
+            led['fixed'] += d.get('fixed', [])
+    return led
 
 
 def known_for(pid, ledger):
